@@ -24,15 +24,18 @@ STAGES = ["Init", "Diagonalize", "Jac", "Aggregate", "Accumulate"]
 
 
 @contextlib.contextmanager
-def stage_recorder(log: list):
+def stage_recorder(log: list, stages=None, snap=None):
+    """Logs (class name, output type name, output dict[, snap()]) for every call of a transform whose
+    class name is in ``stages``; ``snap`` is an optional callable evaluated right after the stage."""
     from torchjd.autojac._transform import base
     orig = base.Transform.__call__
+    stages = STAGES if stages is None else stages
 
     def wrapped(self, input):
         out = orig(self, input)
         name = type(self).__name__
-        if name in STAGES:
-            log.append((name, type(out).__name__, dict(out)))
+        if name in stages:
+            log.append((name, type(out).__name__, dict(out)) if snap is None else (name, type(out).__name__, dict(out), snap()))
         return out
 
     base.Transform.__call__ = wrapped
@@ -151,4 +154,104 @@ def validate_impl_layer(ctx: Ctx, scns: list[dict], seed: int) -> None:
             ctx.report_drift("Backward", f"no implementation-layer action explains the dictionary after stage {first} "
                                          f"(e.g. program {e['prog']} tensors={e['tensors']} inputs={e['inputs']} k={e['k']})")
     ctx.extra["impl_layer_traces"] = {"episodes": len(eps), "fully_explained": full}
+    ctx.traces += full
+
+
+# ------------------------------------------------------------------------------------------- mtl_backward
+MTL_STAGES = ["Stack", "Jac", "Aggregate", "Accumulate"]
+
+
+def record_mtl(scn: dict, rng: random.Random, ep: int) -> dict | None:
+    from torchjd import mtl_backward
+    from torchjd.aggregation import Constant
+
+    B = Built(scn["prog"], rng=rng, scalars=scn["losses"])
+    ids = {id(t): i + 1 for i, t in enumerate(B.t)}
+    grad0 = [[] for _ in scn["prog"]]
+    for l, flat in fmap(scn.get("pregrad")).items():
+        B.set_grad(int(l), flat)
+        grad0[int(l) - 1] = [int(x) for x in flat]
+    leaves = B.leaves()
+
+    def snap():
+        return [([] if (nd["op"] != "leaf" or B.grad_flat(i + 1) is None) else as_int_list(B.grad_flat(i + 1)))
+                for i, nd in enumerate(scn["prog"])]
+
+    log: list = []
+    rec = SweepRecorder()
+    feats = [B.node(int(f)) for f in scn["feats"]]
+    shared = [int(x) for x in scn["shared"]]
+    tparams = [[int(p) for p in tp] for tp in scn["tparams"]]
+    try:
+        with stage_recorder(log, MTL_STAGES, snap), rec:
+            mtl_backward([B.node(int(l)) for l in scn["losses"]], feats,
+                         Constant(torch.tensor([float(x) for x in scn["w"]], dtype=torch.float64)),
+                         tasks_params=[[B.node(p) for p in tp] for tp in tparams],
+                         shared_params=[B.node(s) for s in shared], retain_graph=True,
+                         parallel_chunk_size=None if scn["k"] == 0 else scn["k"])
+    except Exception:                                   # noqa: BLE001
+        return None
+    accs = [e for e in log if e[0] == "Accumulate"]
+    nt = len(scn["losses"])
+    by = {e[0]: e for e in log if e[0] != "Accumulate"}
+    if len(accs) != nt + 1 or "Stack" not in by or (shared and ("Jac" not in by or "Aggregate" not in by)):
+        return {"ep": ep, "missing_stage": [f"Accumulate x{len(accs)} (expected {nt + 1})"] + [s for s in MTL_STAGES[:3] if s not in by]}
+    e = {"ep": ep, "prog": scn["prog"], "feats": [int(f) for f in scn["feats"]], "losses": [int(l) for l in scn["losses"]],
+         "tparams": tparams, "shared": shared, "k": scn["k"], "w": scn["w"], "grad0": grad0,
+         "after_task": [a[3] for a in accs[:nt]],
+         "after_stack": encode_dict(by["Stack"][2], ids, True),
+         "after_jac": encode_dict(by["Jac"][2], ids, True) if shared else [],
+         "after_agg": encode_dict(by["Aggregate"][2], ids, False) if shared else [],
+         "sweeps": [c["rows"] for c in rec.grad_calls({id(t) for t in feats})] if shared else [],
+         "grad1": accs[-1][3], "has_shared": bool(shared)}
+    vals = [e["after_stack"], e["after_jac"], e["after_agg"]] + e["after_task"] + [e["grad1"]]
+    if any(v is None for v in vals) or any(g is None for snapshot in e["after_task"] + [e["grad1"]] for g in snapshot):
+        return {"ep": ep, "missing_stage": ["non-integral or foreign keys"]}
+    return e
+
+
+def validate_mtl_impl_layer(ctx: Ctx, scns: list[dict], seed: int) -> None:
+    rng = random.Random(seed + 177)
+    eps = []
+    for s in scns:
+        try:
+            e = record_mtl(s, rng, len(eps) + 1)
+        except Exception as ex:                         # noqa: BLE001
+            ctx.report_drift("MtlBackward", f"stage recorder could not observe the pipeline ({type(ex).__name__})")
+            return
+        if e is None:
+            continue
+        if "missing_stage" in e:
+            ctx.report_drift("MtlBackward", f"pipeline stages not observed as modelled: {e['missing_stage']}")
+            continue
+        eps.append(e)
+    if not eps:
+        return
+    for i, e in enumerate(eps):
+        e["ep"] = i + 1
+    with tempfile.TemporaryDirectory(prefix="verif_implm_") as dname:
+        path = os.path.join(dname, "episodes.json")
+        json.dump(eps, open(path, "w"))
+        try:
+            res = run_tlc("TraceMtlImpl", "Trace_MtlImpl.cfg", workers=1, env={"TRACE_FILE": path}, timeout=2400)
+        except TLCError as ex:
+            ctx.report_drift("MtlBackward", f"implementation-layer trace spec failed to evaluate: {str(ex)[:200]}")
+            return
+    ctx.add_tlc(res)
+    reached: dict[int, dict] = {}
+    for m in res.prints.get("STAGE", []):
+        reached.setdefault(m["ep"], {}).setdefault(m["stage"], 0)
+        reached[m["ep"]][m["stage"]] += 1
+    full = 0
+    for e in eps:
+        got = reached.get(e["ep"], {})
+        need = ["Task", "Stack"] + (["Jac", "Aggregate"] if e["has_shared"] else []) + ["Accumulate"]
+        if all(s in got for s in need):
+            full += 1
+        else:
+            first = next(s for s in need if s not in got)
+            ctx.report_drift("MtlBackward", f"no implementation-layer action explains the state after stage {first} "
+                                            f"(e.g. program {e['prog']} features={e['feats']} losses={e['losses']} "
+                                            f"tasks_params={e['tparams']} shared={e['shared']} k={e['k']})")
+    ctx.extra["impl_layer_traces_mtl"] = {"episodes": len(eps), "fully_explained": full}
     ctx.traces += full
